@@ -214,6 +214,11 @@ def run_file(item):
             res['counters']['gap_files'] += 1
         if cut is not None:
             res['counters']['truncated_files'] += 1
+        if cut is None and target == F.A and kind.startswith('shortmid') and kind != 'shortmid-daqmx' and not raw_ts and not memmap:
+            why = judge_short(d, hist, layout, ref)
+            res['counters']['short_judged'] = res['counters'].get('short_judged', 0) + 1
+            if why:
+                bad.append(('short-exact', 'eager', 'TdmsFile.read', 'complete chunks and later segments exact', why))
         if cut is None and L >= 0 and target == F.A:
             exp = H.expected_array(ref, F.A) if (kind != 'daqmx' and not kind.startswith('shortmid')) else None
             if exp is not None and exp[1] != L:
@@ -342,7 +347,48 @@ def files(tier):
         out += [(kind, (x,)) for x in opts_]
         out += [(kind, (x, y)) for x in opts_ for y in opts_ + ['abs']]
         out += [(kind, (x, y, z)) for x in opts_[:2] for y in opts_[:2] + ['nod'] for z in [(2, 2), (1, 1)]]
+    for n, chunks in ((2, 2), (3, 1), (3, 2)):
+        for short in range(1, 6 * n + 2):
+            out += [('shortmid-every', ((n, chunks, short), (2, 2))), ('shortmid-every', ((n, chunks, short), 'abs', (2, 1)))]
+        for short in range(1, 6 * n):
+            out += [('shortmid-il-every', ((n, chunks, short), (2, 2))), ('shortmid-il-every', ((n, chunks, short), 'nod', (2, 1)))]
     return out
+
+
+def judge_short(data, hist, layout, ref):
+    """Exact part of the oracle for files with 'less data than expected' segments (non-DAQmx kinds).  The format does not say
+    what an incomplete chunk in the middle of a file holds, so per channel the eager read has to be
+    [values of the complete chunks] + [at most one chunk's worth of values] per short segment, and exactly the encoded values for
+    every other segment - in particular nothing of a later segment is lost, shifted or taken for data.
+    -> None or message"""
+    o = H.observe(data, lazy=False)
+    if o[0] != 'ok':
+        return 'eager read raised %s: %s' % (o[1], o[2])
+    for path, val in o[1]['data'].items():
+        full = ref.values.get(path, [])
+        if not full or ref.dtype.get(path) == 'String' or isinstance(ref.dtype.get(path), tuple):
+            continue
+        isz = len(full[0])
+        got = [val[2][i * isz:(i + 1) * isz] for i in range(val[1])]
+        # pieces: (exact values) or (None, max count)
+        alts = [[]]
+        pos = 0
+        for si, seg in enumerate(hist):
+            cnt = ref.seg_counts[si].get(path, 0)
+            if seg.get('short') and cnt:
+                present = layout[si]['end'] - layout[si]['data_start']
+                chunk_bytes = (present + seg['short']) // seg['chunks']
+                c_full = present // chunk_bytes
+                per = cnt // seg['chunks']
+                exact = full[pos:pos + c_full * per]
+                alts = [a + exact + [None] * k for a in alts for k in range(0, per + 1)]
+            else:
+                alts = [a + full[pos:pos + cnt] for a in alts]
+            pos += cnt
+        if not any(len(a) == len(got) and all(e is None or e == g for e, g in zip(a, got)) for a in alts):
+            return '%s: %d values %s fit none of the %d admissible readings (complete chunks and later segments exact)' % (
+                path, len(got), H._short(val[2]), len(alts))
+    return None
 
 
 def run(ctx):
@@ -361,7 +407,8 @@ def run(ctx):
     cov = {'evaluations': c['ops'], 'files': c['files'], 'distinct_nontrivial': c['nontrivial'],
            'rule': 'evaluations = individual window/slice/index operations; distinct_nontrivial = distinct files '
                    '(distinct parameter tuples incl. cut offset) whose channel holds >= 2 values',
-           'gap_files': c['gap_files'], 'truncated_files': c['truncated_files'], 'kinds': F.F4_KINDS + ['shortmid', 'shortmid-il', 'shortmid-daqmx', 'shortmid-slow'],
+           'gap_files': c['gap_files'], 'truncated_files': c['truncated_files'], 'kinds': F.F4_KINDS + ['shortmid', 'shortmid-il', 'shortmid-daqmx', 'shortmid-slow', 'shortmid-every', 'shortmid-il-every'],
+           'short_judged': c.get('short_judged', 0),
            'outcomes': m['outcomes'], 'samples': m['samples'][:5], 'exhaustive': True, 'vacuity_failures': vac}
     return cov, m['violations']
 
